@@ -17,7 +17,11 @@ ENV = dict(os.environ, CARGO_NET_OFFLINE='true', CARGO_TARGET_DIR=TARGET)
 FORBIDDEN = re.compile(r'\b(Admitted|admit|Axiom|Axioms|Parameter|Parameters|Conjecture|Conjectures|'
                        r'Hypothesis|Variable|Unset\s+Guard|bypass_check|Admit\s+Obligations|'
                        r'type-in-type|impredicative-set|Unset\s+Universe|Unset\s+Positivity)\b')
-ALLOWED_AXIOMS = set()   # every property theorem is expected to be closed under the global context
+# every property theorem is closed under the global context, except C15_gate_ieee (the gate's comparison against Flocq's
+# IEEE-754 formalisation), which rests on the standard library's axioms of the real numbers and classical logic:
+ALLOWED_AXIOMS = {'ClassicalDedekindReals.sig_not_dec', 'ClassicalDedekindReals.sig_forall_dec',
+                  'FunctionalExtensionality.functional_extensionality_dep', 'Classical_Prop.classic'}
+AXIOM_USERS = {'C15': {'C15_gate_ieee'}}     # which property files may show them at all
 
 
 class Broken(Exception):
@@ -150,9 +154,13 @@ def print_assumptions(prop):
     axioms = []
     for blk in re.findall(r'Axioms:\n((?:.+\n?)+?)(?:\n|\Z)', out):
         for ln in blk.splitlines():
-            m = re.match(r'(\S+)\s*:', ln)
+            # an axiom's name starts its line; its (possibly multi-line) type is indented
+            m = re.match(r"([A-Za-z_][\w.']*)", ln)
             if m:
                 axioms.append(m.group(1))
+    axioms = sorted(set(axioms))
+    if axioms and prop not in AXIOM_USERS:
+        axioms = ['(unexpected in %s) %s' % (prop, a) for a in axioms]
     closed = out.count('Closed under the global context')
     return rc == 0, out, thms, axioms, closed
 
